@@ -193,6 +193,41 @@ def long_scenarios(rnd, count):
     return out
 
 
+def reent_scenarios(rnd, count):
+    """Hand-built scenarios of reentrant use (judged by the property layer only): while the OnDelete handlers of one
+    header of a deletion run, the first handler appends the headers right above the head and waits until the flush loop
+    has taken them in.  This is an Append that lands in the pending batch *during* a DeleteRange — the one interleaving of
+    a deletion with an append that can be produced deterministically through the public API.  Tail-side and head-side
+    ranges, the handler position anywhere in the range (for a head-side range including the head itself), batch sizes
+    that keep the new headers pending; afterwards Sync, more appends that fill what the deletion removed, restart."""
+    def op(**kw):
+        d = {"op": "none", "b": [], "from": 0, "to": 0, "failAt": 0, "res": "ok", "calls": [], "gone": [], "kind": "", "ws": []}
+        d.update(kw)
+        return {"op": d, "proj": {}, "live": [], "deleted": []}
+    out = []
+    for i in range(count):
+        m = rnd.randint(3, 7)
+        k = rnd.randint(1, 2)                    # how many headers the handler appends above the head
+        above = list(range(m + 1, m + 1 + k))
+        hist = [op(op="append", b=list(range(1, m + 1))), op(op="sync")]
+        if i % 2 == 0:                           # head-side: [frm, m+1)
+            frm = rnd.randint(2, m)
+            at = rnd.choice((m, m, rnd.randint(frm, m)))
+            hist.append(op(op="delete", **{"from": frm, "to": m + 1, "kind": "head", "appendAt": at, "appendB": above}))
+            hist.append(op(op="sync"))
+            if rnd.random() < 0.6:               # fill what was removed again: the head walks over the island above
+                hist += [op(op="append", b=list(range(frm, m + 1))), op(op="sync")]
+        else:                                    # tail-side: [1, to)
+            to = rnd.randint(2, m)
+            at = rnd.randint(1, to - 1)
+            hist.append(op(op="delete", **{"from": 1, "to": to, "kind": "tail", "appendAt": at, "appendB": above}))
+            hist.append(op(op="sync"))
+        if rnd.random() < 0.5:
+            hist += [op(op="stop"), op(op="start")]
+        out.append({"k": "STORE", "n": m + k, "bsz": rnd.choice((2, 3, 64, 64)), "ctx": rnd.random() < 0.5, "hist": hist, "variant": "free"})
+    return out
+
+
 def family(run, prefixes, faults, crash, variants=None):
     variants = variants or {}
     quick = run.tier == "quick"
@@ -270,6 +305,8 @@ def family(run, prefixes, faults, crash, variants=None):
         extra.extend(parallel_scenarios(rnd, variants["parscen"]))
     if variants.get("longscen"):
         extra.extend(long_scenarios(rnd, variants["longscen"]))
+    if variants.get("reent"):
+        extra.extend(reent_scenarios(rnd, variants["reent"]))
     run.cov["variant_runs"] = dict(collections.Counter(e["variant"].split(":")[0] for e in extra))
     keep = keep + extra
     run.cov["edges_exported"] = total_edges
@@ -297,7 +334,8 @@ def family(run, prefixes, faults, crash, variants=None):
 def c04(run):
     family(run, ["C04_", "C06_clean_restart"], faults=False, crash=False,
            variants={"nowait": 0.3, "wfail": 0.08 if run.tier == "quick" else 0.5, "sameobj": 0.1 if run.tier == "quick" else 0.5,
-                     "dfail": 0.3 if run.tier == "quick" else 1.0, "longscen": 80 if run.tier == "quick" else 800})
+                     "dfail": 0.3 if run.tier == "quick" else 1.0, "longscen": 80 if run.tier == "quick" else 800,
+                     "reent": 120 if run.tier == "quick" else 1200})
     # concurrent callers: an appender's own Append + Sync while other callers' Syncs, flushes and a tail-side deletion are
     # in flight (free schedules through the store's yield points and datastore operations): what it appended is readable
     # once its Sync has returned
@@ -309,14 +347,16 @@ def c04(run):
 def c08(run):
     family(run, ["C08_", "C06_clean_restart"], faults=True, crash=False,
            variants={"nowait": 1.0, "parallel": 0.5 if run.tier == "quick" else 1.0, "parscen": 150 if run.tier == "quick" else 1500,
-                     "dfail": 0.15 if run.tier == "quick" else 1.0, "sameobj": 0.08 if run.tier == "quick" else 0.5})
+                     "dfail": 0.15 if run.tier == "quick" else 1.0, "sameobj": 0.08 if run.tier == "quick" else 0.5,
+                     "reent": 120 if run.tier == "quick" else 1200})
 
 
 @register("C14")
 def c14(run):
     family(run, ["C14_"], faults=True, crash=False, variants={"nowait": 0.5 if run.tier == "quick" else 1.0,
                                                                "parallel": 1.0, "parscen": 300 if run.tier == "quick" else 3000,
-                                                               "sameobj": 0.1 if run.tier == "quick" else 0.5})
+                                                               "sameobj": 0.1 if run.tier == "quick" else 0.5,
+                                                               "reent": 80 if run.tier == "quick" else 800})
 
 
 @register("C06")
